@@ -50,6 +50,15 @@ CHECKS = {
         "convex faces <= 65 degrees across; table exactness demanded to degree 2n-3 (gaussian) / N (triangular).",
         "DESIGN.md section 6, C05",
     ),
+    "C06": (
+        "property-based testing (Hypothesis): differential oracle (independent weighted sum with fresh-grid areas) + linearity",
+        "Exploration: generated grids (incl. solids and single polygons where n_face equals n_node or n_edge) x face-centred "
+        "arrays of rank 1-4 and five dtypes x every supported (rule, order) x a drawn history of earlier integrate calls on the "
+        "same grid are compared with tensordot(values, areas) where the areas come from a fresh grid asked once for that rule "
+        "and order; linearity, ones -> total area, dims/name/grid of the result; node- and edge-dimensioned arrays must raise.",
+        "Trusted: numpy tensordot; areas are judged by C05; dyadic-rational data make float64 sums exact.",
+        "DESIGN.md section 6, C06",
+    ),
     "C16": (
         "property-based testing (Hypothesis): independent geodesic oracle + per-edge reference differences/gradients",
         "Exploration: generated grids (mixed, partial with boundary edges, n_face above/below n_node, MPAS-like sources with "
